@@ -287,10 +287,43 @@ func (e *poolEnv) startCall(k int, addr, form string, hold bool) {
 	}()
 }
 
+// syncTick waits for the start of a housekeeping pass (observed as a burst of pings on the
+// pooled connections) and then for that pass to be over, so that the action that follows falls
+// well inside the gap between two passes (the completion-to-stamp window of a call is not
+// gate-bounded; see DESIGN.md, C15).
+func (e *poolEnv) syncTick() {
+	count := func() int {
+		e.mu.Lock()
+		conns := append([]*pconn(nil), e.conns...)
+		e.mu.Unlock()
+		n := 0
+		for _, c := range conns {
+			c.mu.Lock()
+			n += c.nPing
+			c.mu.Unlock()
+		}
+		return n
+	}
+	n0 := count()
+	deadline := time.Now().Add(4 * poolTick)
+	for time.Now().Before(deadline) {
+		if count() != n0 {
+			break
+		}
+		time.Sleep(100 * time.Microsecond)
+	}
+	time.Sleep(900 * time.Microsecond)
+}
+
 func (e *poolEnv) finishCall(k int) bool {
 	e.mu.Lock()
 	conns := append([]*pconn(nil), e.conns...)
 	e.mu.Unlock()
+	defer func() {
+		e.mu.Lock()
+		e.holdCall[k] = false
+		e.mu.Unlock()
+	}()
 	for _, c := range conns {
 		c.mu.Lock()
 		seq, ok := c.held[k]
@@ -404,8 +437,10 @@ func runPoolScenario(sc poolScenario) *poolResult {
 			}
 			e.mu.Unlock()
 		case "finish":
+			e.syncTick()
 			ok = e.finishCall(atoi(f[1]))
 		case "kill":
+			e.syncTick()
 			e.mu.Lock()
 			e.up[f[1]] = false
 			conns := append([]*pconn(nil), e.conns...)
@@ -721,7 +756,10 @@ func runOnePool(i int, sc poolScenario) *scenarioOut {
 		inl = append(inl, a)
 		iml = append(iml, res.obs[j])
 	}
-	out.Streams = map[string][2][]string{"p": {inl, iml}}
+	if !strings.Contains(strings.Join(sc.Actions, " "), "holdclose") {
+		// scenarios that hold a socket close for seconds are monitor-only (real time passes)
+		out.Streams = map[string][2][]string{"p": {inl, iml}}
+	}
 	out.Key = fmt.Sprintf("%d %d %s", sc.MaxConns, sc.MaxIdle, strings.Join(res.actions, ";"))
 	out.Counters["actions"] = len(res.actions)
 	for _, a := range res.actions {
